@@ -322,11 +322,18 @@ func supply(st *state.StateDB) (sum *big.Int, neg string) {
 }
 
 func (x *ctx) tx(ep *epoch, num uint64, nonce uint64, to common.Address, value int64) *types.Transaction {
-	key := fmt.Sprintf("%s/%d/%d/%s/%d", ep.name, num, nonce, to.Hex(), value)
+	return x.txGas(ep, num, nonce, to, value, 0)
+}
+
+func (x *ctx) txGas(ep *epoch, num uint64, nonce uint64, to common.Address, value int64, gas uint64) *types.Transaction {
+	if gas == 0 {
+		gas = 600000
+	}
+	key := fmt.Sprintf("%s/%d/%d/%s/%d/%d", ep.name, num, nonce, to.Hex(), value, gas)
 	if t, ok := x.signed[key]; ok {
 		return t
 	}
-	raw := types.NewTransaction(nonce, to, big.NewInt(value), 600000, big.NewInt(2), nil)
+	raw := types.NewTransaction(nonce, to, big.NewInt(value), gas, big.NewInt(2), nil)
 	t, err := types.SignTx(raw, types.MakeSigner(ep.cfg, new(big.Int).SetUint64(num)), senderKey)
 	if err != nil {
 		ev.Broken("sign: %v", err)
@@ -350,6 +357,7 @@ type progCase struct {
 	V2     string `json:"v2,omitempty"`
 	T2     string `json:"t2,omitempty"`
 	Leaf2  string `json:"leaf2,omitempty"`
+	Gas    uint64 `json:"gas,omitempty"` // gas limit of the transaction (0: 600000)
 }
 
 func (p progCase) String() string {
@@ -456,7 +464,7 @@ func evalProg(x *ctx, p progCase) *verdict {
 		st.SetCode(addrA, codeA)
 		st.SetCode(addrM, codeM)
 		num := big.NewInt(1)
-		tx := x.tx(ep, 1, 0, addrA, p.TxVal)
+		tx := x.txGas(ep, 1, 0, addrA, p.TxVal, p.Gas)
 		hdr := &types.Header{Number: num, Coinbase: addrMiner, GasLimit: 8000000, Time: big.NewInt(240), Difficulty: big.NewInt(131072),
 			Version: ep.cfg.GetBlockVersion(num)}
 		want := new(big.Int)
@@ -560,6 +568,12 @@ func enumProgs(thorough bool) []progCase {
 						for _, t1 := range trailers {
 							// depth 1
 							for _, tg := range targetsOf(a1) {
+								if a1 == "CREATE" {
+									// a frame that creates while holding most of a block's gas (the 63/64 rule has to take
+									// gas away from the creating frame, not hand it out twice)
+									out = append(out, progCase{Level: level, Epoch: e, TxVal: tv, A1: a1, V1: v1, T1: t1, Target: tg, Rep: 1, Gas: 7000000})
+									out = append(out, progCase{Level: level, Epoch: e, TxVal: tv, A1: a1, V1: v1, T1: t1, Target: tg, Rep: 3, Gas: 7000000})
+								}
 								out = append(out, progCase{Level: level, Epoch: e, TxVal: tv, A1: a1, V1: v1, T1: t1, Target: tg, Rep: 1})
 								out = append(out, progCase{Level: level, Epoch: e, TxVal: tv, A1: a1, V1: v1, T1: t1, Target: tg, Rep: 2})
 								out = append(out, progCase{Level: level, Epoch: e, TxVal: tv, A1: a1, V1: v1, T1: t1, Target: tg, Rep: 3})
